@@ -1,6 +1,6 @@
 (* C14 — Array is a list of fixed-width items over one bit buffer (statements; ArrayProofs.v).
    mk its tr = concat its ++ tr is the abstraction "data = item encodings followed by trailing bits". *)
-From BS Require Import Prims BitsCore Mutators SeqProofs ArrayM ArrayProofs ArraySlice ArrayMut.
+From BS Require Import Prims BitsCore Mutators SeqProofs ArrayM ArrayProofs ArraySlice ArrayMut ArrayOps.
 Open Scope Z_scope.
 Theorem C14_len_and_trailing : forall w its tr, 0 < w -> wfA w its tr -> arr_len w (mk its tr) = zlen its /\ trailing w (mk its tr) = tr.
 Proof. intros. split; [now apply arr_len_mk|now apply trailing_mk]. Qed.
@@ -98,3 +98,87 @@ Print Assumptions C14_reverse_items.
 Print Assumptions C14_tolist_and_iteration.
 Print Assumptions C14_equals_and_copy.
 Print Assumptions C14_count_items.
+
+(* ------------------------------------------------------------------------------------------------------------------------------------
+   Element-wise operators (ArrayOps.v): the three Python loops _apply_op_to_all_elements(_inplace) / _apply_op_between_arrays /
+   _apply_bitwise_op_to_all_elements(_inplace) modelled statement by statement (new_data / failures / index, one try-block per item), for
+   ANY item codec (w, dec), result codec (w', build) and operator op : V -> res U (Err e = "raises e").
+   step = op on the decoded item, then build, then the len(b) != bitlength check. *)
+(* Array op scalar: the whole loop is "map the operator over the items": the first exception that is not ValueError / ZeroDivisionError
+   escapes as it is, otherwise any failing item makes the call raise ValueError after the loop, otherwise the result is the concatenation *)
+Theorem C14_elementwise_is_map : forall (V U : Type) (w : Z) (dec : bits -> V) (w' : Z) (build : U -> res bits) (op : V -> res U),
+  0 < w -> forall d : bits, apply_op V U w dec w' build op d = outcome (map (step V U dec w' build op) (items w d)).
+Proof. exact apply_op_char. Qed.
+Theorem C14_elementwise_success : forall (V U : Type) (w : Z) (dec : bits -> V) (w' : Z) (build : U -> res bits) (op : V -> res U),
+  0 < w -> 0 < w' -> forall d : bits,
+  Forall (fun it : bits => exists e : bits, step V U dec w' build op it = Ok e) (items w d) ->
+  exists d' : bits, apply_op V U w dec w' build op d = Ok d' /\
+    map (step V U dec w' build op) (items w d) = map Ok (items w' d') /\ trailing w' d' = [] /\ arr_len w' d' = arr_len w d /\ zlen d' = arr_len w d * w'.
+Proof. exact apply_op_success. Qed.
+(* the decoded value of result item i is op of the decoded value of item i *)
+Theorem C14_elementwise_values : forall (V U : Type) (w : Z) (dec : bits -> V) (w' : Z) (build : U -> res bits) (op : V -> res U),
+  0 < w -> 0 < w' -> forall dec' : bits -> U, (forall (u : U) (b : bits), build u = Ok b -> dec' b = u) -> forall d : bits,
+  Forall (fun it : bits => exists e : bits, step V U dec w' build op it = Ok e) (items w d) ->
+  exists d' : bits, apply_op V U w dec w' build op d = Ok d' /\ Forall2 (fun it it' : bits => op (dec it) = Ok (dec' it')) (items w d) (items w' d') /\ trailing w' d' = [].
+Proof. exact apply_op_values. Qed.
+(* "a result that does not fit raises": whichever item it is *)
+Theorem C14_elementwise_misfit_raises : forall (V U : Type) (w : Z) (dec : bits -> V) (w' : Z) (build : U -> res bits) (op : V -> res U),
+  0 < w -> forall d : bits,
+  Forall (fun it : bits => forall ex : exn, step V U dec w' build op it = Err ex -> caught ex = true) (items w d) ->
+  Exists (fun it : bits => exists ex : exn, step V U dec w' build op it = Err ex) (items w d) -> apply_op V U w dec w' build op d = Err ValueError.
+Proof. exact apply_op_failure. Qed.
+(* "a failing in-place operator leaves the Array unchanged", and a succeeding one holds exactly the data of the pure operator *)
+Theorem C14_inplace_is_pure_or_nothing : forall (V : Type) (w : Z) (dec : bits -> V) (build : V -> res bits) (op : V -> res V) (d : bits),
+  apply_op_inplace V w dec build op d = match apply_op V V w dec w build op d with Ok d' => (d', Ok tt) | Err e => (d, Err e) end.
+Proof. exact inplace_is_pure_or_nothing. Qed.
+(* Array op Array: different numbers of items raise; otherwise item i meets item i *)
+Theorem C14_between_length_mismatch : forall (V1 V2 U : Type) (w1 : Z) (dec1 : bits -> V1) (w2 : Z) (dec2 : bits -> V2) (w3 : Z) (build : U -> res bits)
+  (new_type : res unit) (op : V1 -> V2 -> res U) (d1 d2 : bits),
+  arr_len w1 d1 <> arr_len w2 d2 -> apply_between V1 V2 U w1 dec1 w2 dec2 w3 build new_type op d1 d2 = Err ValueError.
+Proof. exact between_length_mismatch. Qed.
+Theorem C14_between_is_zip_map : forall (V1 V2 U : Type) (w1 : Z) (dec1 : bits -> V1) (w2 : Z) (dec2 : bits -> V2) (w3 : Z) (build : U -> res bits)
+  (new_type : res unit) (op : V1 -> V2 -> res U), 0 < w1 -> 0 < w2 -> forall d1 d2 : bits, arr_len w1 d1 = arr_len w2 d2 ->
+  apply_between V1 V2 U w1 dec1 w2 dec2 w3 build new_type op d1 d2 =
+  (do _ <- new_type; outcome (map (step2 V1 V2 U dec1 dec2 w3 build op) (combine (items w1 d1) (items w2 d2)))).
+Proof. exact between_char. Qed.
+(* comparisons: a bool Array holding the item-wise results; never fails against a scalar *)
+Theorem C14_compare_scalar : forall (V : Type) (w : Z) (dec : bits -> V) (cmp : V -> bool) (d : bits), 0 < w ->
+  apply_op V bool w dec 1 build_bool (fun v : V => Ok (cmp v)) d = Ok (map (fun it : bits => cmp (dec it)) (items w d)).
+Proof. intros. now apply compare_scalar. Qed.
+Theorem C14_compare_arrays : forall (V1 V2 : Type) (w1 : Z) (dec1 : bits -> V1) (w2 : Z) (dec2 : bits -> V2) (cmp : V1 -> V2 -> bool) (d1 d2 : bits), 0 < w1 -> 0 < w2 ->
+  apply_between V1 V2 bool w1 dec1 w2 dec2 1 build_bool (Ok tt) (fun (a : V1) (b : V2) => Ok (cmp a b)) d1 d2 =
+  (if arr_len w1 d1 =? arr_len w2 d2 then Ok (map (fun p : bits * bits => cmp (dec1 (fst p)) (dec2 (snd p))) (combine (items w1 d1) (items w2 d2))) else Err ValueError).
+Proof. intros. now apply compare_arrays. Qed.
+(* bitwise &= |= ^= with a w-bit value: every item combined with it, trailing bits kept; a value of another length is refused, nothing changed *)
+Theorem C14_bitwise_inplace : forall w : Z, 0 < w -> forall (f : bool -> bool -> bool) (value d : bits),
+  bitwise_inplace w f value d = (if zlen value =? w then (mk (map (fun it : list bool => map2 f it value) (items w d)) (trailing w d), Ok tt) else (d, Err ValueError)).
+Proof. exact bitwise_inplace_spec. Qed.
+(* the documented type promotion (Array._promotetype, as repaired by D62): ValueError exactly for a non-numeric dtype; otherwise the higher
+   class wins (float > signed int > unsigned int), then the longer one, and a tie goes to the first; one of the two arguments is returned;
+   the choice is associative *)
+Theorem C14_promotion_defined : forall t1 t2 : dt,
+  (numeric t1 /\ numeric t2 -> exists t : dt, promotetype t1 t2 = Ok t) /\ (~ (numeric t1 /\ numeric t2) -> promotetype t1 t2 = Err ValueError).
+Proof. exact promote_defined. Qed.
+Theorem C14_promotion_rule : forall t1 t2 : dt, numeric t1 -> numeric t2 -> coherent t1 t2 ->
+  promotetype t1 t2 = Ok (if rank t1 =? rank t2 then if dt_len t2 >? dt_len t1 then t2 else t1 else if rank t1 >? rank t2 then t1 else t2).
+Proof. exact promote_char. Qed.
+Theorem C14_promotion_tie_goes_to_the_first : forall t1 t2 : dt, numeric t1 -> numeric t2 -> coherent t1 t2 -> rank t1 = rank t2 -> dt_len t1 = dt_len t2 ->
+  promotetype t1 t2 = Ok t1.
+Proof. exact promote_tie_first. Qed.
+Theorem C14_promotion_associative : forall a b c : dt, numeric a -> numeric b -> numeric c -> coherent a b -> coherent b c -> coherent a c ->
+  (do x <- promotetype a b; promotetype x c) = (do y <- promotetype b c; promotetype a y).
+Proof. exact promote_assoc. Qed.
+Print Assumptions C14_elementwise_is_map.
+Print Assumptions C14_elementwise_success.
+Print Assumptions C14_elementwise_values.
+Print Assumptions C14_elementwise_misfit_raises.
+Print Assumptions C14_inplace_is_pure_or_nothing.
+Print Assumptions C14_between_length_mismatch.
+Print Assumptions C14_between_is_zip_map.
+Print Assumptions C14_compare_scalar.
+Print Assumptions C14_compare_arrays.
+Print Assumptions C14_bitwise_inplace.
+Print Assumptions C14_promotion_defined.
+Print Assumptions C14_promotion_rule.
+Print Assumptions C14_promotion_tie_goes_to_the_first.
+Print Assumptions C14_promotion_associative.
